@@ -1,0 +1,12 @@
+//go:build verif
+
+// Contracts checked by /verif/govc (comment-only file; adds no code).
+
+package io
+
+//@ func (*LimitedWriter).Write
+//@ props C17
+//@ requires l != nil && l.W != nil
+//@ at call (Writer).Write: assert[C17.cap] l.N > 0 && len(arg0) <= l.N
+//@ ensures[C17.cap] old(l.N) >= 0 ==> 0 <= l.N && l.N <= old(l.N) && old(l.N) - l.N <= len(p)
+//@ modifies l.N
